@@ -279,6 +279,13 @@ def main(pid, body):
     except ToolError as e:
         log("TOOL-ERROR %s: %s" % (pid, e))
         sys.exit(2)
+    except SystemExit:
+        raise
+    except BaseException as e:                       # a defect of the machinery is a tool error, never a verdict
+        import traceback
+        traceback.print_exc()
+        log("TOOL-ERROR %s: unexpected %s: %s" % (pid, type(e).__name__, e))
+        sys.exit(2)
     sys.exit(rc)
 
 
@@ -315,6 +322,52 @@ def tla_to_json_lines(prints, key):
             s = v[1:-1].replace('\\"', '"').replace("\\\\", "\\")
             res.append(json.loads(s))
     return res
+
+
+def validate_trace_sharded(c, module, cfg, path, describe, shards, **kw):
+    """impl -> spec for traces of mutually independent events whose validation is slow: the events are dealt
+    round-robin into `shards` files, each validated by its own TLC (one worker each, in parallel); reports and
+    counters are merged afterwards.  Returns the number of rejected events."""
+    import threading
+    lines = [l for l in open(path).read().split("\n") if l.strip()]
+    shards = max(1, min(shards, len(lines)))
+    lock = threading.Lock()
+
+    class Proxy:
+        def __init__(self):
+            self.reports, self.notes, self.traces, self.evaluations, self.error = [], [], 0, 0, None
+        def tlc_trace(self, *a, **k):
+            return c.tlc_trace(*a, **k)
+        def report(self, *a):
+            self.reports.append(a)
+    proxies = []
+    threads = []
+    for k in range(shards):
+        sp = "%s.shard%d" % (path, k)
+        open(sp, "w").write("\n".join(lines[k::shards]) + "\n")
+        px = Proxy()
+        proxies.append(px)
+        def work(px=px, sp=sp):
+            try:
+                px.rejected = validate_trace(px, module, cfg, sp, describe, **kw)
+            except BaseException as e:          # re-raised in the caller's thread
+                px.error = e
+        t = threading.Thread(target=work)
+        t.start()
+        threads.append(t)
+    for t in threads:
+        t.join()
+    rejected = 0
+    for px in proxies:
+        if px.error is not None:
+            raise px.error
+        for a in px.reports:
+            c.report(*a)
+        c.notes += px.notes
+        c.traces += px.traces
+        c.evaluations += px.evaluations
+        rejected += px.rejected
+    return rejected
 
 
 def validate_trace(c, module, cfg, path, describe, max_rejects=8, env=None, heap="4g", timeout=1800, count_runs=True,
